@@ -96,6 +96,12 @@ pub fn alphabet(table: &Table, f: &FieldDef, budget: usize) -> Vec<Val> {
                     }
                     if *n >= 2 {
                         out.push(Val::Text(word(*n - 1))); // shorter than the field: not canonical
+                        let mut w: Vec<char> = word(*n).chars().collect();
+                        w[*n - 2] = '\u{2554}';
+                        w[*n - 1] = '\u{2557}';
+                        if w[..*n - 2].iter().all(|c| c.is_ascii()) {
+                            out.push(Val::Text(w.into_iter().collect()));
+                        }
                     }
                 }
                 Len::LL => {
@@ -103,6 +109,9 @@ pub fn alphabet(table: &Table, f: &FieldDef, budget: usize) -> Vec<Val> {
                     out.push(Val::Text(all.chars().skip(130).take(99).collect()));
                     out.push(Val::Text("A\0B".into()));
                     out.push(Val::Text("AB\0".into()));
+                    // CP437 bytes c9 bb / c3 a4: also well-formed UTF-8
+                    out.push(Val::Text("\u{2554}\u{2557}".into()));
+                    out.push(Val::Text("A\u{251c}\u{f1}".into()));
                 }
                 Len::Temp => {
                     out.push(Val::Text("8.0".into()));
@@ -112,6 +121,8 @@ pub fn alphabet(table: &Table, f: &FieldDef, budget: usize) -> Vec<Val> {
                     out.push(Val::Text(all_cp437()));
                     out.push(Val::Text("A\0B".into()));
                     out.push(Val::Text("AB\0".into()));
+                    out.push(Val::Text("\u{2554}\u{2557}".into()));
+                    out.push(Val::Text("A\u{251c}\u{f1}".into()));
                 }
             }
             out
